@@ -1,15 +1,15 @@
 package rules
 
 import (
-	"go/types"
 	"fmt"
+	"go/types"
 	"strings"
 
 	"golang.org/x/tools/go/ssa"
 
 	"verif/checker/internal/core"
-	"verif/checker/internal/load"
 	"verif/checker/internal/ir"
+	"verif/checker/internal/load"
 )
 
 func init() {
